@@ -44,3 +44,133 @@ impl vstd::std_specs::cmp::PartialEqSpecImpl for Identifier {
 	open spec fn obeys_eq_spec() -> bool { false }
 	open spec fn eq_spec(&self, other: &Self) -> bool { true }
 }
+
+// ---- C09: the documented value of a character / string literal ------------------------------------
+// UTF-8 from the standard's table, in plain arithmetic (independent of vstd's bit-level definition; lemma_utf8 relates them)
+pub open spec fn utf8_scalar(v: nat) -> Seq<u8> {
+	if v < 0x80 { seq![v as u8] }
+	else if v < 0x800 { seq![(0xC0 + v / 64) as u8, (0x80 + v % 64) as u8] }
+	else if v < 0x10000 { seq![(0xE0 + v / 4096) as u8, (0x80 + (v / 64) % 64) as u8, (0x80 + v % 64) as u8] }
+	else { seq![(0xF0 + v / 262144) as u8, (0x80 + (v / 4096) % 64) as u8, (0x80 + (v / 64) % 64) as u8, (0x80 + v % 64) as u8] }
+}
+proof fn lemma_utf8(c: char)
+	ensures encode_utf8(seq![c]) =~= utf8_scalar(c as nat)
+{
+	let v = c as u32;
+	reveal_with_fuel(encode_utf8, 2);
+	assert(seq![c].drop_first() =~= Seq::<char>::empty());
+	assert(v <= 0x7f ==> (v & 127) as u8 == v) by (bit_vector);
+	assert(0x80 <= v <= 0x7ff ==> (192u8 | ((v >> 6) & 31) as u8) == 192 + v / 64 && (128u8 | (v & 63) as u8) == 128 + v % 64) by (bit_vector);
+	assert(0x800 <= v <= 0xffff ==> (224u8 | ((v >> 12) & 15) as u8) == 224 + v / 4096 && (128u8 | ((v >> 6) & 63) as u8) == 128 + (v / 64) % 64 && (128u8 | (v & 63) as u8) == 128 + v % 64) by (bit_vector);
+	assert(0x10000 <= v <= 0x10ffff ==> (240u8 | ((v >> 18) & 7) as u8) == 240 + v / 262144 && (128u8 | ((v >> 12) & 63) as u8) == 128 + (v / 4096) % 64 && (128u8 | ((v >> 6) & 63) as u8) == 128 + (v / 64) % 64 && (128u8 | (v & 63) as u8) == 128 + v % 64) by (bit_vector);
+}
+// \n \r \t \\ \' \" \0
+pub open spec fn simple_esc(e: char) -> Option<u8> {
+	if e == 'n' { Some(10u8) } else if e == 'r' { Some(13u8) } else if e == 't' { Some(9u8) } else if e == '\\' { Some(92u8) }
+	else if e == '\'' { Some(39u8) } else if e == '"' { Some(34u8) } else if e == '0' { Some(0u8) } else { None }
+}
+// number of consecutive hexadecimal digits from position p on
+pub open spec fn hexrun(s: Seq<char>, p: int) -> int
+	decreases s.len() - p
+{
+	if 0 <= p < s.len() && is_dig(s[p], 16) { 1 + hexrun(s, p + 1) } else { 0 }
+}
+// one element of the content of a quoted literal starting at position p (not the closing quote):
+// Some((number of characters, bytes it denotes)), or None when it is malformed.
+//   \n \r \t \\ \' \" \0   the documented byte;   \xHH  exactly the single byte 0xHH (all 256 values);
+//   \u{H..H}  the UTF-8 encoding of that scalar value;   a space, a graphic ASCII character: its byte;
+//   a non-ASCII character: its UTF-8 encoding;   other ASCII (control) characters: malformed.
+pub open spec fn elem(s: Seq<char>, p: int) -> Option<(int, Seq<u8>)> {
+	let c = s[p];
+	if c == '\\' {
+		if p + 1 >= s.len() { None }
+		else {
+			let e = s[p + 1];
+			if simple_esc(e) is Some { Some((2int, seq![simple_esc(e)->0])) }
+			else if e == 'x' {
+				if p + 3 < s.len() && is_dig(s[p + 2], 16) && is_dig(s[p + 3], 16) { Some((4int, seq![(cdig(s[p + 2])->0 * 16 + cdig(s[p + 3])->0) as u8])) } else { None }
+			}
+			else if e == 'u' {
+				if p + 2 < s.len() && s[p + 2] == '{' {
+					let k = hexrun(s, p + 3);
+					let v = cdigv(s.subrange(p + 3, p + 3 + k), 16);
+					if p + 3 + k < s.len() && s[p + 3 + k] == '}' && k >= 1 && is_scalar(v) { Some((4 + k, utf8_scalar(v))) } else { None }
+				} else { None }
+			}
+			else { None }
+		}
+	}
+	else if c == ' ' { Some((1int, seq![32u8])) }
+	else if 0x21 <= c as u32 <= 0x7e { Some((1int, seq![c as u8])) }
+	else if c as u32 <= 0x7f { None }
+	else { Some((1int, utf8_scalar(c as nat))) }
+}
+pub open spec fn elen(s: Seq<char>, p: int) -> int { match elem(s, p) { Some(e) => e.0, None => 0 } }
+pub open spec fn ebytes(s: Seq<char>, p: int) -> Seq<u8> { match elem(s, p) { Some(e) => e.1, None => Seq::<u8>::empty() } }
+// s[a..b) is a sequence of well formed elements none of which is the bare quote character q
+pub open spec fn lit_ok(s: Seq<char>, a: int, b: int, q: char) -> bool
+	decreases b - a
+{
+	if a >= b { a == b } else { 0 <= a < s.len() && s[a] != q && elem(s, a) is Some && elen(s, a) >= 1 && a + elen(s, a) <= b && lit_ok(s, a + elen(s, a), b, q) }
+}
+// the bytes denoted by s[a..b)
+pub open spec fn lit_bytes(s: Seq<char>, a: int, b: int) -> Seq<u8>
+	decreases b - a
+{
+	if a >= b || !(elem(s, a) is Some && elen(s, a) >= 1 && a + elen(s, a) <= b) { Seq::<u8>::empty() } else { ebytes(s, a) + lit_bytes(s, a + elen(s, a), b) }
+}
+// appending one element at the end
+pub open spec fn lit_step(s: Seq<char>, a: int, p: int, q: char) -> bool {
+	(lit_ok(s, a, p, q) && 0 <= p < s.len() && s[p] != q && elem(s, p) is Some && elen(s, p) >= 1)
+	==> (lit_ok(s, a, p + elen(s, p), q) && lit_bytes(s, a, p + elen(s, p)) == lit_bytes(s, a, p) + ebytes(s, p))
+}
+proof fn lemma_lit_step(s: Seq<char>, a: int, p: int, q: char)
+	requires a <= p
+	ensures lit_step(s, a, p, q)
+	decreases p - a
+{
+	if lit_ok(s, a, p, q) && 0 <= p < s.len() && s[p] != q && elem(s, p) is Some && elen(s, p) >= 1 {
+		let n = elen(s, p);
+		let eb = ebytes(s, p);
+		if a == p {
+			assert(lit_ok(s, p + n, p + n, q));
+			assert(lit_bytes(s, p + n, p + n) =~= Seq::<u8>::empty());
+			assert(lit_bytes(s, p, p) =~= Seq::<u8>::empty());
+			assert(lit_bytes(s, p, p + n) =~= eb);
+			assert(lit_bytes(s, a, p + n) =~= lit_bytes(s, a, p) + eb);
+		} else {
+			let a2 = a + elen(s, a);
+			assert(lit_ok(s, a2, p, q));
+			lemma_lit_step(s, a2, p, q);
+			assert(lit_bytes(s, a, p + n) =~= ebytes(s, a) + lit_bytes(s, a2, p + n));
+			assert(lit_bytes(s, a, p) =~= ebytes(s, a) + lit_bytes(s, a2, p));
+			assert(lit_bytes(s, a, p + n) =~= lit_bytes(s, a, p) + eb);
+		}
+	}
+}
+proof fn lemma_cdigv2(s: Seq<char>, base: nat)
+	requires s.len() == 2, all_dig(s, base)
+	ensures cdigv(s, base) == cdig(s[0])->0 * base + cdig(s[1])->0
+{
+	reveal_with_fuel(cdigv, 3);
+	assert(s.drop_last().last() == s[0]);
+	assert(s.drop_last().drop_last().len() == 0);
+}
+
+// ---- identifier class and the eleven integer suffixes -----------------------------------------------
+pub open spec fn ident_cont(x: char) -> bool { (97 <= x as u32 <= 122) || (65 <= x as u32 <= 90) || (48 <= x as u32 <= 57) || x as u32 == 95 }
+pub open spec fn suffix_type(s: Seq<char>) -> Option<ValueType> {
+	if s == "i8"@ { Some(ValueType::Int8) }
+	else if s == "i16"@ { Some(ValueType::Int16) }
+	else if s == "i32"@ { Some(ValueType::Int32) }
+	else if s == "i64"@ { Some(ValueType::Int64) }
+	else if s == "i128"@ { Some(ValueType::Int128) }
+	else if s == "u8"@ { Some(ValueType::Uint8) }
+	else if s == "u16"@ { Some(ValueType::Uint16) }
+	else if s == "u32"@ { Some(ValueType::Uint32) }
+	else if s == "u64"@ { Some(ValueType::Uint64) }
+	else if s == "u128"@ { Some(ValueType::Uint128) }
+	else if s == "usize"@ { Some(ValueType::Usize) }
+	else { None }
+}
+pub open spec fn is_suffix(s: Seq<char>) -> bool { suffix_type(s) is Some }
